@@ -59,7 +59,7 @@ func runHistory(r *vkit.Run, caseNo int, rg *vkit.Rand, cfg histCfg) {
 	kinds := map[string]bool{}
 	overwrites := 0
 	fail := func(i int, d string) {
-		r.Violation(cfg.Class, map[string]string{"after_op": hist[i].Kind, "background": fmt.Sprint(bg), "schedule": "sequential"},
+		r.Violation(cfg.Class, mismatchFeatures(map[string]string{"after_op": hist[i].Kind, "background": fmt.Sprint(bg), "schedule": "sequential"}),
 			c01Wit{Case: caseNo, History: opStrings(hist), FailsAt: i, Diff: d, Files: s.TSMFiles()})
 	}
 	for i := 0; i < nops; i++ {
@@ -105,6 +105,12 @@ func runHistory(r *vkit.Run, caseNo int, rg *vkit.Rand, cfg histCfg) {
 			applyModel(m, series, o)
 			r.Event("deletes", 1)
 			r.Event("points_deleted_in_model", int64(before-countPoints(m)))
+		case "snapfail":
+			if !bg {
+				if err := s.SnapshotFailing(); err != nil {
+					r.Event("failed_snapshots", 1)
+				}
+			}
 		case "snapshot":
 			if err := s.Snapshot(); err != nil {
 				fail(i, "snapshot error: "+err.Error())
